@@ -6,7 +6,7 @@
 (* record: which laws the record triggers and whether each holds is decided by the         *)
 (* operators of SkyGeom.tla.  State i = 0 checks the minimum number of triggered           *)
 (* instances of every law and class (non-vacuity of the whole history).                    *)
-(* Record kinds: gc | rt | iso | nu0 | stripe | vec.                                       *)
+(* Record kinds: gc | rt | iso | nu0 | stripe | vec | unch.                                *)
 EXTENDS SkyGeom, Json, IOUtils, TLC
 Recs == JsonDeserialize(IOEnv.VERIF_TRACE)
 MinPer == atoi(IOEnv.VERIF_MINPER)       \* required instances per class
@@ -25,6 +25,7 @@ Laws(r) ==
     [] r.kind = "nu0" -> {"NuZeroGreatCircle"}
     [] r.kind = "stripe" -> {"StripeTable"}
     [] r.kind = "vec" -> {"AnglesVectorsInverse"}
+    [] r.kind = "unch" -> {"CallerObjectUnchanged"}
     [] OTHER -> {}
 
 Failing(r) ==
@@ -38,6 +39,7 @@ Failing(r) ==
     [] r.kind \in {"rt", "iso", "nu0"} -> IF MuNuHolds(r) THEN {} ELSE {r.kind}
     [] r.kind = "stripe" -> IF StripeHolds(r) THEN {} ELSE {"StripeTable"}
     [] r.kind = "vec" -> IF VecHolds(r) THEN {} ELSE {"AnglesVectorsInverse"}
+    [] r.kind = "unch" -> IF CallerObjectUnchanged(r) THEN {} ELSE {"CallerObjectUnchanged " \o r.fn}
     [] OTHER -> {"unknown record kind"}
 
 (* the named deviation of SkyGeom.tla (if any) that admits a rejected record exactly *)
@@ -74,6 +76,17 @@ Shortfalls ==
   \cup {"NuZero inv stripe " \o ToString(s) : s \in Stripes \ StripesOf(LAMBDA r : r.kind = "nu0" /\ r.dir = "inv")}
   \cup {"StripeTable stripe " \o ToString(s) : s \in Stripes \ StripesOf(LAMBDA r : r.kind = "stripe")}
   \cup (IF Count(LAMBDA r : r.kind = "rt" /\ r.polar) < MinPer THEN {"RoundTrip polar"} ELSE {})
+  (* one coordinate object handed to several transforms: array-valued and scalar, both directions *)
+  \cup {"RoundTrip of a reused array object, from " \o d : d \in {x \in {"icrs", "munu"} :
+           Count(LAMBDA r : r.kind = "rt" /\ r.dir = x /\ r.array /\ r.use >= 1) < MinPer}}
+  \cup (IF Count(LAMBDA r : r.kind = "rt" /\ r.array /\ r.use >= 2) < MinPer THEN {"RoundTrip of an array object used more than twice"} ELSE {})
+  \cup (IF Count(LAMBDA r : r.kind = "rt" /\ ~r.array /\ r.use >= 1) < MinPer THEN {"RoundTrip of a reused scalar object"} ELSE {})
+  \cup {"CallerObjectUnchanged array " \o f : f \in {x \in CallerFns :
+           Count(LAMBDA r : r.kind = "unch" /\ r.fn = x /\ r.array) < MinPer}}
+  \cup {"CallerObjectUnchanged reused array " \o f : f \in {x \in TransformFns :
+           Count(LAMBDA r : r.kind = "unch" /\ r.fn = x /\ r.array /\ r.use >= 1) < MinPer}}
+  \cup {"CallerObjectUnchanged scalar " \o f : f \in {x \in TransformFns :
+           Count(LAMBDA r : r.kind = "unch" /\ r.fn = x /\ ~r.array) < MinPer}}
   \cup (IF Count(LAMBDA r : r.kind = "iso" /\ ~r.polar) < MinPer THEN {"Isometry"} ELSE {})
   \cup {"AnglesVectorsInverse " \o d \o (IF l THEN " latitude" ELSE " colatitude") \o (IF p THEN " polar" ELSE "") :
            <<d, l, p>> \in {x \in {"a2x2a", "x2a2x"} \X BOOLEAN \X BOOLEAN :
